@@ -233,11 +233,8 @@ func (w *aworld) acheck(o op, ob aobsT, seen map[string]bool) []finding {
 	if ob.Active >= 0 && (ob.Active < int64(liveTwo) || ob.Active > int64(liveAll)) {
 		add("request-active-differs-from-live-requests", fmt.Sprintf("after %s: upstream_request_active = %d with %d two-way and %d one-way requests admitted and not finished", o, ob.Active, liveTwo, liveAll-liveTwo))
 	}
-	if w.maxReq != 0 && ob.Req != ob.Active {
-		add("breaker-resource-mismatch", fmt.Sprintf("after %s: Requests().Cur() = %d, upstream_request_active = %d", o, ob.Req, ob.Active))
-	}
-	if w.maxReq == 0 && ob.Req != 0 {
-		add("breaker-resource-mismatch", fmt.Sprintf("after %s: Requests().Cur() = %d with max_requests = 0", o, ob.Req))
+	if ob.Req != ob.Active { // for every max_requests, 0 (unlimited) included
+		add("breaker-resource-mismatch", fmt.Sprintf("after %s: Requests().Cur() = %d, upstream_request_active = %d (max_requests %d)", o, ob.Req, ob.Active, w.maxReq))
 	}
 	return out
 }
@@ -362,5 +359,7 @@ func c10(args []string) int {
 	}
 	sh.Close()
 	c10h2(run)
+	c10admit(run)
+	c10churn(run)
 	return run.Finish()
 }
